@@ -161,6 +161,7 @@ enum Op {
   Deliver(usize),
   Drop(usize),
   Dup(usize),
+  FragGc,
 }
 impl Op {
   fn coq(&self) -> String {
@@ -173,6 +174,7 @@ impl Op {
       Op::Deliver(i) => format!("ODeliver {}", i),
       Op::Drop(i) => format!("ODrop {}", i),
       Op::Dup(i) => format!("ODup {}", i),
+      Op::FragGc => "OFragGC".into(),
     }
   }
   fn kind(&self) -> &'static str {
@@ -187,6 +189,7 @@ impl Op {
       Op::Deliver(_) => "deliver_reordered",
       Op::Drop(_) => "drop",
       Op::Dup(_) => "dup",
+      Op::FragGc => "fraggc",
     }
   }
 }
@@ -379,6 +382,12 @@ impl Sut {
           self.feed(tw, &b);
         }
       }
+      Op::FragGc => {
+        let rid = rguid().entity_id;
+        if let Some(reader) = self.mr_r.reader_mut(rid) {
+          reader.verif_c02_gc_fragments();
+        }
+      }
     }
   }
 
@@ -548,6 +557,8 @@ fn run_case(spec: &CaseSpec, r: &mut Rng) -> Outcome {
           Op::RepairFragsTick
         } else if choice < 43 {
           Op::CacheClean
+        } else if choice < 45 && *max_nf > 1 {
+          Op::FragGc
         } else if n == 0 {
           Op::HbTick
         } else {
@@ -694,6 +705,20 @@ fn corpus(thorough: bool) -> Vec<CaseSpec> {
     "idle_timers",
     1,
     vec![RepairTick, RepairFragsTick, CacheClean, HbTick, Write(2), RepairTick, RepairFragsTick, RepairFragsTick, Deliver(0), Deliver(0), Deliver(0)],
+  );
+  // the reader's fragment garbage collection drops a partially received sample: it is requested
+  // again in full through the ACKNACK bitmap (this was the only rescue before NACKFRAG worked)
+  fixed(
+    "fragment_gc_of_partial_sample",
+    1,
+    vec![
+      Write(4), Deliver(0), Drop(0), Deliver(0), Drop(0), Deliver(0), // frags 1,3 arrive; HB answered
+      Deliver(0), Deliver(0), RepairTick, RepairTick, // NACKFRAG + ACKNACK; all four resent ...
+      Drop(0), Drop(0), Drop(0), Drop(0), // ... and lost
+      FragGc, // the partial sample is forgotten
+      HbTick, Deliver(4), // answered with a plain ACKNACK bitmap now
+      FragGc,
+    ],
   );
   // a 12-fragment sample: the frags worker sends 8 per tick
   fixed("twelve_fragments", 1, vec![Write(12), Drop(0), Drop(0), Drop(0), Deliver(9), Deliver(0), Deliver(0), RepairTick]);
